@@ -644,7 +644,14 @@ def check_searches(repo, rep):
       rep.undecided('R4/order', 'search_results', 'iterated sequence not understood: %s' % it, f.loc(loop.ast))
     return
   rkey = m.group(1)
+
+  def _const_key(txt_, fn_):
+    """A module-level constant naming the key (DESIGNS_KEY = 0) is that key."""
+    v_ = fn_.module.assigns.get(txt_) if txt_.isidentifier() else None
+    return norm(v_) if isinstance(v_, ast.Constant) else txt_
+  rkey = _const_key(rkey, f)
   for name, k, call, sf in keys:
+    k = _const_key(k, sf)
     rep.check(k == rkey, 'R4/search', '%s pushes under the key search_results reads (%s)' % (name, rkey), sf.qualname, norm(call),
               '%s pushes under key %s but search_results reads key %s' % (name, k, rkey), sf.loc(call))
   # appended element derives from the loop variable
